@@ -174,7 +174,7 @@ def all_cases(tier: str, seed: int):  # noqa: ANN201
     yield from foreign_cases()
     yield from treecheck.cases("c04", tier, seed, 4000, 60000, extra=lambda: itertools.chain(treefam.scope_chains(), treefam.shield_sandwich(),
                                                                   treefam.spawn_into_cancelled(), treefam.shielded_checkpoint_window(),
-                                                                  treefam.fresh_cancellation()))
+                                                                  treefam.fresh_cancellation(), treefam.late_shield()))
 
 
 def judge(case: dict, col) -> None:  # noqa: ANN001
